@@ -7,7 +7,23 @@ FINISH = dict(rule="R1: TLC enumerates all texts over CharCore/TokenCore/UnqToke
                    "_quoting_c classes for all 9+4 configurations; R3: TLC evaluates C05.same on every record")
 
 
+STEP_INVS = ["Inv_PyClosedForm", "Inv_CClosedForm", "Inv_PyIndex", "Inv_CIndex", "Inv_Interchangeable"]
+
+
+def step_cfg(maxlen, alphabet, invs, overrides=()):
+    return "\n".join(["SPECIFICATION Spec", f"CONSTANT MaxLen = {maxlen}", f"CONSTANT Alphabet <- {alphabet}"]
+                     + [f"CONSTANT {o}" for o in overrides] + [f"INVARIANT {i}" for i in invs] + ["CHECK_DEADLOCK FALSE"]) + "\n"
+
+
 def run(out, sc, tier, seed):
+    # R1: the two transducers as STEP machines (byte machine with rewinds / code-point machine with look-ahead and the
+    # `changed` flag), run side by side: both terminate with the closed forms and agree outside the named deviation
+    from ..core import model_check
+    res = model_check("QuoterSteps", step_cfg(3 if tier == "quick" else 4, "SmallCore" if tier == "quick" else "CharCore", STEP_INVS), sc.work, timeout=7200)
+    out.add_model("QuoterSteps", res, what="step machines of _quoting_py and _quoting_c for all 9 configurations: " + ", ".join(STEP_INVS))
+    res = model_check("QuoterSteps", step_cfg(3, "SmallCore", ["Inv_PyClosedForm"], ["RewindBad <- One"]), sc.work)
+    out.add_model("QuoterSteps[negative: rewind 1 instead of 2]", res, expect_violation="Inv_PyClosedForm",
+                  what="non-vacuity: an off-by-one in the malformed-escape rewind is found by TLC")
     run_quoter_level(out, sc, tier, seed, "C05", unq=True)
     # outputs crossing the compiled writer's 8 KiB growth boundaries (static buffer -> malloc -> realloc)
     keep = 0.02 if tier == "quick" else 1.0
